@@ -782,7 +782,9 @@ def planner_decision_oracle(prop, run):
                         if q in done:
                             continue
                         if q in running:
-                            if p_["time"] < running[q]["end"]:
+                            # (exact runtimes only: with a variance the planners know the nominal runtime of the parent's
+                            # strategy, the parent really runs longer)
+                            if world["flags"]["runtime_variance"] == 0 and p_["time"] < running[q]["end"]:
                                 yield (f"C11 run: child-planned-before-the-expected-finish-of-its-running-parent planner={name}",
                                        {"child": lab, "parent": q, "decision": e["k"], "time": now, "child_start": p_["time"], "parent_finish": running[q]["end"]})
                         elif q in standing:
